@@ -29,9 +29,9 @@ Print Assumptions C03_total_length.
 Theorem C03_init : Inv 0 init_state.
 Proof. exact inv_init. Qed.
 
-Theorem C03_size_jmp_short16 : forall rel, -128 <= rel <= 127 -> zlen (gen_jmp M16 rel) = estimate_jump "JMP" M16.
+Theorem C03_size_jmp_short16 : forall rel, -126 <= rel <= 129 -> zlen (gen_jmp M16 rel) = estimate_jump "JMP" M16.
 Proof. exact size_jmp_short16. Qed.
-Theorem C03_size_jcc_short16 : forall opc rel name, -128 <= rel <= 127 -> name <> "CALL"%string -> zlen (gen_jcc opc rel) = estimate_jump name M16.
+Theorem C03_size_jcc_short16 : forall opc rel name, -126 <= rel <= 129 -> name <> "CALL"%string -> zlen (gen_jcc opc rel) = estimate_jump name M16.
 Proof. exact size_jcc_short16. Qed.
 Theorem C03_size_call16 : forall rel, -32768 <= rel - 5 <= 32767 -> zlen (gen_call rel) = estimate_jump "CALL" M16.
 Proof. exact size_call16. Qed.
